@@ -164,8 +164,8 @@ def streams(ctx, scale=1):
                         "lines": st["lines"], "crash_only": True, "tscale": 8, "env": env})
     # boundary sweeps of this property
     for cfg in ("base", "w8"):
-        exe = ctx.oracle(SANMAP[cfg], defs=("ORACLE_NT",), sources=("oracle.c", "ops_bn.c", "ops_nt.c"), tag="_nt")
-        ref = ctx.oracle(cfg, defs=("ORACLE_NT",), sources=("oracle.c", "ops_bn.c", "ops_nt.c"), tag="_nt")
+        exe = ctx.oracle(SANMAP[cfg], defs=c09.ORACLE_DEFS, sources=c09.ORACLE_SOURCES, tag="_nt")     # the same binary as the C09 streams
+        ref = ctx.oracle(cfg, defs=c09.ORACLE_DEFS, sources=c09.ORACLE_SOURCES, tag="_nt")
         hdr, kv = c01._cfg(exe)
         n = (1500 if ctx.tier == "quick" else 40000) * scale
         res.append({"name": "san-boundary-" + cfg, "cfg": SANMAP[cfg], "exe": exe, "ref_exe": ref, "crash_only": True, "tscale": 8, "env": env,
